@@ -47,7 +47,15 @@ def load_module(prop):
     return importlib.import_module('spowtd_verif.props.' + prop.lower())
 
 
+SHARD_TIME_ZONES = ['UTC', 'America/New_York', 'Asia/Kolkata', 'Australia/Lord_Howe']
+
+
 def run_shard(args):
+    # the machine's own time zone is part of the environment, not of the input: each shard runs
+    # under another one (none of the properties may depend on it)
+    zone = SHARD_TIME_ZONES[args.shard % len(SHARD_TIME_ZONES)]
+    os.environ['TZ'] = zone
+    time.tzset()
     core.install_repo_import_hook()
     mod = load_module(args.prop)
     workdir = os.path.join(
@@ -63,6 +71,7 @@ def run_shard(args):
         workdir,
         os.path.join(core.HOME, 'replays'),
     )
+    ctx.rec.hit('shards-run-with-the-machine-time-zone-set-to:' + zone)
     try:
         mod.run(ctx)
     except Exception:  # harness failure: inconclusive, never a violation
@@ -73,6 +82,9 @@ def run_shard(args):
         )
     finally:
         shutil.rmtree(workdir, ignore_errors=True)
+    from . import data as data_mod
+    if data_mod.RELATIVE_CALLS[0]:
+        ctx.rec.hit('commands-typed-with-relative-file-names-from-the-data-directory', data_mod.RELATIVE_CALLS[0])
     with open(args.out, 'w') as f:
         json.dump(ctx.rec.to_dict(), f)
     return 0
@@ -135,7 +147,10 @@ def run_tier(args):
             '--seed', str(args.seed), '--shard', str(i), '--nshards', str(nshards),
             '--out', out,
         ]
-        procs.append((i, out, log, subprocess.Popen(cmd, stdout=log, stderr=subprocess.STDOUT)))
+        # string hashing is part of the environment too: a fixed, different hash seed per shard
+        # (reproducible, but set / dict-of-set orders of strings differ between shards)
+        env = dict(os.environ, PYTHONHASHSEED=str(i))
+        procs.append((i, out, log, subprocess.Popen(cmd, stdout=log, stderr=subprocess.STDOUT, env=env)))
     deadline = t0 + WATCHDOG_S[args.tier]
     dicts = []
     problems = []
